@@ -140,6 +140,7 @@ func runC02(r *Run) {
 	}
 	libIsClient := rc.Opts.LibClient
 	thr := rc.Opts.Thresh
+	r.DrawYields()
 	nW := 1 + t.Draw(3)
 	var ws []*wActor
 	vol := 0
